@@ -83,10 +83,13 @@ CHECKS = {
                   "destinations, over-declared groups, T in {0,2,3,4,6,20}); oracle per block: children of a group are listed in "
                   "the timeout notifications only in the block where the unsettled group reaches first-accept height + T, at most "
                   "once per chain; the group's statuses change only in a block with an accepted request/receipt of the group or at "
-                  "that timeout. Non-trivial = a group times out, or reaches its timeout height already settled."),
+                  "that timeout. Non-trivial = a group times out, or reaches its timeout height already settled. TestC06InterHub: the "
+                  "inter-hub state machine of the C04 check (requests to and from a remote BitXHub, multi-signed receipts, notices of "
+                  "the destination hub, T in 0,2,3,5): a transaction is listed as timed out exactly in block H+T if it is still BEGIN "
+                  "there, once, for its source (local appchain or union pier), never after an accepted receipt or notice."),
         "assumptions": [],
-        "quick": [T("TestC06", 8, 150, steps=30), T("TestC06Groups", 8, 150, steps=30)],
-        "thorough": [T("TestC06", 16, 1200, steps=45, timeout=3000), T("TestC06Groups", 16, 2000, steps=40, timeout=3000)],
+        "quick": [T("TestC06", 8, 150, steps=30), T("TestC06Groups", 8, 150, steps=30), T("TestC06InterHub", 8, 60, steps=30)],
+        "thorough": [T("TestC06", 16, 1200, steps=45, timeout=3000), T("TestC06Groups", 16, 2000, steps=40, timeout=3000), T("TestC06InterHub", 16, 800, steps=40, timeout=3000)],
     },
     "C02": {
         "level": "exploration",
